@@ -206,6 +206,11 @@ def job_load(job: dict[str, Any]) -> dict[str, Any]:
         g = registrations(job["scenario"]) if not job.get("broken") else {"regs": [], "descs": [], "cfg": {}, "plugins": []}
         rec: dict[str, Any] = {"kind": "load", "regs": g["regs"], "descs": g["descs"], "ok": False, "tree": [],
                                "tdescs": [], "raised": "", "msg": ""}
+        if job.get("mutant"):
+            # mutant of the harness's own fake: the installed plugin registers another class than the harness's
+            # ground truth says (binding self-test; TLC must reject the record)
+            pl = S.SCENARIO["pls"][0]
+            pl["leaves"] = [[pl["leaves"][0][0], "c2ba"]] + pl["leaves"][1:]
         try:
             t = gplugin.load_commands()
             rec["ok"] = True
